@@ -9,8 +9,12 @@ the mark -- and producers may append; nobody else marks):
   * the unhandled consumer discards only an item that stayed marked at the head for a
     whole yield (nobody wanted it)
   * a framed packet whose identifiers are not this connection's pair has no effect.
-The head-of-line timing clause ("a few polling intervals") depends on the scheduler and
-is not decided.
+  * head-of-line clause, as progress per iteration of the discard loop: whatever was at the
+    head when an iteration of the unhandled consumer began is gone when that iteration ends
+    (taken by somebody or discarded), for every datagram content; producers never clear the
+    mark; an arriving datagram is always appended.  "A few polling intervals" then follows
+    under the scheduler assumption that every consumer task gets to run once per interval
+    (ASSUMED -- asyncio's fairness is not modelled).
 """
 import asyncio
 
@@ -101,9 +105,13 @@ def queue_operations_keep_the_invariant(op: int):
     arbitrary_queue(q)
     ensures("arbitrary-state-satisfies-invariant", queue_inv(q))
     before = list(q._queue)
+    was_marked = q.is_marked
     if op == 0:
-        q.put_nowait(fresh_item("new"))
+        new_item = fresh_item("new")
+        q.put_nowait(new_item)
         ensures("put-appends-at-the-tail", both(q.qsize() == len(before) + 1, (q.head is before[0]) if len(before) > 0 else (q.head is q._queue[0])))
+        ensures("put-keeps-everything-queued-before", both(list(q._queue)[0:len(before)] == before, q._queue[len(before)] is new_item))
+        ensures("put-keeps-the-mark", q.is_marked == was_marked)
     elif op == 1:
         requires(q.qsize() > 0)
         q.pop()
@@ -201,6 +209,10 @@ class unhandled_loop:
             # discarded only if it was already at the head when this iteration began (and was marked
             # then or by this iteration) and at least one full yield passed before the removal
             ok = both(ps[0][1] is not None, ps[0][1] is Mon.start_head, ("suspend",) in Mon.log[0:first])
+        # progress: once an iteration that began with a datagram at the head has yielded, that datagram is gone
+        # by the time the loop comes round again (somebody took it, or it is discarded here) -- for every content
+        if Mon.start_head is not None and ("suspend",) in Mon.log:
+            ok = both(ok, L.protocol.queue.head is not Mon.start_head)
         return both(queue_inv(L.protocol.queue), ok)
 
 
@@ -297,3 +309,32 @@ async def malformed_frame_after_a_good_one_has_no_effect(port: int, spa_id: byte
     h.handle(b"<PACKT>" + garbage + b"</PACKT>", sender)
     await h.async_handled(sender)
     ensures("malformed-frame-has-no-effect", len(proto.received) == 1)
+
+
+# ------------------------------------------------------------- arrival: every datagram is queued
+from geckolib.driver.async_udp_protocol import GeckoAsyncUdpProtocol
+
+
+def no_connection_lost(exc):
+    pass
+
+
+@harness(prop="C07", target="geckolib.driver.async_udp_protocol:GeckoAsyncUdpProtocol.datagram_received",
+         note="queue length is symbolic (0 .. 10^6 pending datagrams)")
+def every_arriving_datagram_is_queued_at_the_tail(n: int, data: bytes, port: int, marked: bool):
+    requires(both(0 <= n, n <= 1000000))
+    p = GeckoAsyncUdpProtocol(no_connection_lost, ("10.0.0.9", 10022))
+    ensures("fresh-connection-has-an-empty-unmarked-queue", both(p.queue.qsize() == 0, not p.queue.is_marked, p.queue.head is None))
+    pending = sym_list(n, lambda j: (b"pending", SENDER), key=("pending",))
+    p.queue._queue = pending
+    p.queue._marked = both(marked, n > 0)
+    m0 = p.queue.is_marked
+    addr = ("10.0.0.9", port)
+    p.datagram_received(data, addr)
+    ensures("queued-exactly-once", p.queue.qsize() == n + 1)
+    last = p.queue._queue[n]
+    ensures("queued-at-the-tail-intact", both(last[0] is data, last[1] == addr))
+    ensures("arrival-keeps-the-mark", p.queue.is_marked == m0)
+    if n == 0:
+        ensures("first-arrival-becomes-the-head", p.queue.head[0] is data)
+    cover("arrives-behind-many", n > 100)
